@@ -152,6 +152,10 @@ fn mutations(objs: &[u8]) -> Vec<(String, Vec<u8>)> {
         }
     }
     v.retain(|(_, x)| x.as_slice() != objs);
+    // the faithful objects under each single IIN2 rejection bit
+    for bit in [0x01u8, 0x02, 0x04] {
+        v.push((format!("iin2:{bit}"), objs.to_vec()));
+    }
     v
 }
 
@@ -250,7 +254,8 @@ impl CaseSpace for Echo {
             }
             target = req2;
         }
-        let reply = app::response(app::ctrl(true, true, false, false, target[0] & 0x0F), fc::RESPONSE, 0, 0, &mutated);
+        let iin2: u8 = mlabel.strip_prefix("iin2:").and_then(|b| b.parse().ok()).unwrap_or(0);
+        let reply = app::response(app::ctrl(true, true, false, false, target[0] & 0x0F), fc::RESPONSE, 0, iin2, &mutated);
         sim.respond(&reply);
         res.transitions += 1;
         let after: Vec<Vec<u8>> = sim.take_out().iter().filter_map(|t| t.frag().map(|f| f.to_vec())).collect();
@@ -924,6 +929,14 @@ impl CaseSpace for Queued {
             }
             if done[0].starts_with("Ok") {
                 res.violation = Some(Violation::new("C16.U3", format!("success-despite-failure:queued:{fail:?}"), format!("request {i}: {}", done[0])));
+                return res;
+            }
+        }
+        // a disabled channel (or a removed association) writes nothing more
+        if fail != Fail::Eof {
+            let later: Vec<String> = sim.take_out().iter().filter_map(|t| t.frag()).filter(|f| f.len() >= 2 && f[1] != fc::CONFIRM).map(|f| app::hex(&f[..f.len().min(16)])).collect();
+            if !later.is_empty() {
+                res.violation = Some(Violation::new("C16.Q2", format!("request-written-after-the-failure:{fail:?}"), format!("{n} requests were submitted before the {fail:?}; written afterwards: {later:?}")));
                 return res;
             }
         }
